@@ -43,7 +43,10 @@ ROUTES = ('ctor', 'set_rules', 'file', 'ctor+own', 'set_rules+own',
           # policy.d supplies
           'file+dir-default',
           # ... or a default registered in code supplies it
-          'file+reg-default')
+          'file+reg-default',
+          # every rule is a registered default that is deprecated for
+          # removal (still in force until it is removed); files define nothing
+          'reg-removal')
 
 
 def bound(tier):
@@ -122,12 +125,24 @@ def build(P, parse_rule, ruleset, cfg, route, w):
             enf.register_default(P.RuleDefault('default',
                                                ruleset['default']))
         return enf
+    if route == 'reg-removal':
+        w.write('policy.yaml', '{}')
+        conf = world.new_conf(w.root, **overrides)
+        enf = P.Enforcer(conf, **kw)
+        enf.register_defaults([
+            P.RuleDefault(n, b, deprecated_for_removal=True,
+                          deprecated_reason='r', deprecated_since='s')
+            for n, b in ruleset.items()])
+        return enf
     if route == 'file+late':
         in_file = {k: v for k, v in ruleset.items() if k != 'x'}
         w.write('policy.yaml', world.dumps_policy(in_file))
         conf = world.new_conf(w.root, **overrides)
         enf = P.Enforcer(conf, **kw)
-        enf.enforce('y', {}, {'roles': []})        # first load happens here
+        # first load happens here; every name is asked for once BEFORE the
+        # late registration, also the one about to be registered
+        for q in QUERIES:
+            enf.enforce(q, {}, {'roles': []})
         if 'x' in ruleset:
             enf.register_default(P.RuleDefault('x', ruleset['x']))
         return enf
@@ -230,7 +245,8 @@ class _Fmt(__import__('logging').Handler):
 
 
 def _row(acc, P, parse_rule, ruleset, cfg, route, via):
-    w = world.FileWorld() if route.startswith(('file', 'dir')) else None
+    w = world.FileWorld() if route.startswith(('file', 'dir', 'reg')) \
+        else None
     # one route runs with the library's debug logging switched on
     debug = route == 'set_rules+own'
     if debug:
@@ -284,7 +300,7 @@ def _row(acc, P, parse_rule, ruleset, cfg, route, via):
 def replay(doc):
     from oslo_policy import _parser, policy as P
     c = doc['case']
-    w = world.FileWorld() if c['route'].startswith(('file', 'dir')) \
+    w = world.FileWorld() if c['route'].startswith(('file', 'dir', 'reg')) \
         else None
     try:
         enf = build(P, _parser.parse_rule, c['rules'], tuple(c['config']),
